@@ -17,6 +17,7 @@ import (
 	"path/filepath"
 	"reflect"
 	"strings"
+	"sync"
 	"time"
 
 	mail "github.com/wneessen/go-mail"
@@ -129,6 +130,12 @@ func Run(r *hx.Run, replay []hx.Case) {
 		for _, hc := range replay {
 			if hc.Kind == "cfg" && len(hc.Args) == 1 {
 				runCfg(r, pki, hc.ID, hc.Args[0])
+			} else if hc.Kind == "seq" {
+				if steps, err := parseSeq(hc.Args); err != nil {
+					r.Fail(hc.ID, "bad-case", err.Error())
+				} else {
+					runSeq(r, pki, hc.ID, steps)
+				}
 			} else {
 				rest = append(rest, hc)
 			}
@@ -147,6 +154,46 @@ func Run(r *hx.Run, replay []hx.Case) {
 				break
 			}
 			runCfg(r, pki, r.NewID(), calls)
+		}
+		dseq := seqCases()
+		r.Notes["dial_sequences"] = len(dseq)
+		// the sequences are independent (client and servers of their own): run them in parallel into private result
+		// sets and merge these in order
+		locals := make([]*hx.Run, len(dseq))
+		ids := make([]string, len(dseq))
+		for i := range dseq {
+			ids[i] = r.NewID()
+		}
+		var wg sync.WaitGroup
+		sem := make(chan struct{}, 16)
+		for i := range dseq {
+			if r.Expired() {
+				break
+			}
+			wg.Add(1)
+			sem <- struct{}{}
+			go func(i int) {
+				defer wg.Done()
+				defer func() { <-sem }()
+				lr := hx.NewRun(r.Prop, r.Tier, r.Seed, r.Dir)
+				runSeq(lr, pki, ids[i], dseq[i])
+				locals[i] = lr
+			}(i)
+		}
+		wg.Wait()
+		for _, lr := range locals {
+			if lr == nil {
+				continue
+			}
+			for k, c := range lr.Cases {
+				r.Add(c, strings.TrimPrefix(lr.Impl[k], c.ID+" "), true)
+			}
+			r.Failures = append(r.Failures, lr.Failures...)
+			for key, n := range lr.Dist {
+				if !strings.HasPrefix(key, "kind:") {
+					r.Dist[key] += n
+				}
+			}
 		}
 	}
 	nontriv := func(c dialx.Case) bool { return c.Auth != "NOAUTH" || c.Policy != "N" || c.SSL }
@@ -458,4 +505,158 @@ func portOf(addr string) int {
 	n := 0
 	fmt.Sscanf(addr[i+1:], "%d", &n)
 	return n
+}
+
+// ---------------------------------------------------------------------------------------------
+// sequences of dials of ONE mail.Client: DialAndSend twice / Dial-Send-Reset-Close twice or three times, the server's
+// behaviour (and possibly the client's policy, through SetTLSPolicy) differing between the dials.  Every step is
+// observed and judged like a single dial; the model runs every step from its configuration alone.
+
+func seqArgs(steps []dialx.Case) []string {
+	var a []string
+	for i, c := range steps {
+		if i > 0 {
+			a = append(a, "/")
+		}
+		a = append(a, c.Kind)
+		a = append(a, c.Args()...)
+	}
+	return a
+}
+
+func parseSeq(args []string) ([]dialx.Case, error) {
+	var steps []dialx.Case
+	var cur []string
+	flush := func() error {
+		if len(cur) == 0 {
+			return fmt.Errorf("empty step")
+		}
+		c, err := dialx.Parse(cur[0], cur[1:])
+		if err != nil {
+			return err
+		}
+		steps = append(steps, c)
+		cur = nil
+		return nil
+	}
+	for _, t := range args {
+		if t == "/" {
+			if err := flush(); err != nil {
+				return nil, err
+			}
+			continue
+		}
+		cur = append(cur, t)
+	}
+	if err := flush(); err != nil {
+		return nil, err
+	}
+	return steps, nil
+}
+
+func runSeq(r *hx.Run, pki *dialx.PKI, id string, steps []dialx.Case) {
+	first := steps[0]
+	pol := map[string]mail.TLSPolicy{"M": mail.TLSMandatory, "O": mail.TLSOpportunistic, "N": mail.NoTLS}
+	shared, err := mail.NewClient(first.Host, mail.WithHELO(dialx.HeloName), mail.WithTimeout(3*time.Second),
+		mail.WithTLSPolicy(pol[first.Policy]), mail.WithSMTPAuth(mail.SMTPAuthType(first.Auth)),
+		mail.WithUsername(dialx.User), mail.WithPassword(dialx.Pass))
+	if err != nil {
+		r.Fail(id, "harness-error", err.Error())
+		return
+	}
+	var obs []string
+	for k, c := range steps {
+		c := c
+		build := func(transport ...mail.Option) (*mail.Client, error) {
+			shared.SetTLSPolicy(pol[c.Policy]) // a setter between the dials (no-op when the policy stays)
+			for _, o := range transport {
+				if err := o(shared); err != nil {
+					return nil, err
+				}
+			}
+			return shared, nil
+		}
+		o, err := dialx.RunWith(c, pki, 3*time.Second, build)
+		if err != nil {
+			r.Fail(id, "harness-error", err.Error())
+			return
+		}
+		obs = append(obs, o.Observable(c))
+		sid := fmt.Sprintf("%s (dial %d of %d)", id, k+1, len(steps))
+		n0 := len(r.Failures)
+		oracle(r, id, c, o)
+		// auto-discovery is a function of this dial's advertised list and encryption state: on an unencrypted connection
+		// it must end in "no supported mechanism" or in a mechanism that does not carry the password, never in the
+		// refusal of PLAIN / LOGIN (which would mean an earlier, encrypted dial's choice was replayed)
+		if c.Auth == "AUTODISCOVER" && !strings.Contains(o.Srv, "/t:") && len(o.Results) > 0 {
+			last := o.Results[0]
+			if last == "unenc" {
+				r.Fail(id, "autodiscover-replays-earlier-choice", fmt.Sprintf("dial %d of the sequence is unencrypted, yet auto-discovery chose PLAIN/LOGIN (refused by the mechanism): %s", k+1, o.Srv))
+			}
+		}
+		for i := n0; i < len(r.Failures); i++ {
+			r.Failures[i].Detail = sid + ": " + r.Failures[i].Detail
+		}
+	}
+	r.Add(hx.Case{ID: id, Kind: "seq", Args: seqArgs(steps)}, strings.Join(obs, " / "), true)
+	r.Dist["sequence-length:"+fmt.Sprint(len(steps))]++
+	r.Dist["sequence-auth:"+first.Auth]++
+}
+
+// seqCases: transitions {TLS ok -> STARTTLS not advertised, TLS ok -> STARTTLS answered 454, plain -> TLS, mandatory
+// TLS -> policy switched to NoTLS, TLS -> stripped -> TLS} x {same AUTH list, a different one} x every auth type x
+// {localhost, other host} x {DialAndSend, Dial+Send+Reset+Close}
+func seqCases() [][]dialx.Case {
+	var out [][]dialx.Case
+	// same list on every dial (with and without a mechanism that auto-discovery may use unencrypted), and a changing one
+	lists := [][2]string{{"PLAIN LOGIN CRAM-MD5", "PLAIN LOGIN CRAM-MD5"}, {"PLAIN LOGIN", "PLAIN LOGIN"}, {"LOGIN", "LOGIN"}, {"PLAIN LOGIN", "LOGIN CRAM-MD5"}}
+	type beh struct {
+		pol    string
+		adv    bool
+		script []string
+	}
+	tlsOK := func(p string) beh { return beh{p, true, nil} }
+	trans := [][]beh{
+		{tlsOK("O"), {"O", false, nil}},
+		{tlsOK("O"), {"O", true, []string{"ok", "ok", "454"}}},
+		{{"N", false, nil}, tlsOK("O")},
+		{tlsOK("M"), {"N", true, nil}},
+		{tlsOK("O"), {"O", false, nil}, tlsOK("O")},
+	}
+	for _, a := range AuthTypes {
+		if a == "CUSTOM" {
+			continue
+		}
+		for _, host := range []string{"localhost", dialx.OtherMem} {
+			for _, kind := range []string{"das", "sess"} {
+				for _, ls := range lists {
+					for _, tr := range trans {
+						var steps []dialx.Case
+						for i, b := range tr {
+							list := ls[0]
+							if i%2 == 1 {
+								list = ls[1]
+							}
+							c := dialx.Case{Kind: kind, Policy: b.pol, Auth: a, Custom: "-", Host: host, Mute: -1,
+								Caps: caps(list, b.adv), CapsTLS: caps(list, false), HS: "ok", Script: b.script, Msgs: []int{1}}
+							if strings.HasPrefix(a, "SCRAM") {
+								// no harness server speaks SCRAM: where AUTH is reached it is answered 535
+								c.Caps, c.CapsTLS = caps(list+" "+a, b.adv), caps(list+" "+a, false)
+								if b.script == nil {
+									if b.adv && b.pol != "N" {
+										c.Script = []string{"ok", "ok", "ok", "ok", "535"}
+									} else {
+										c.Script = []string{"ok", "ok", "535"}
+									}
+								}
+							}
+							steps = append(steps, c)
+						}
+						out = append(out, steps)
+					}
+				}
+			}
+		}
+	}
+	return out
 }
